@@ -23,6 +23,16 @@ where
   F: core::ops::FnMut(&mut T) -> bool,
 {
   let old_len = vec.len();
+
+  // guard against the iterator being leaked: until `Drop` restores the length the vector must
+  // not cover slots whose values may already have been handed out
+  //
+  if old_len > 0 {
+    unsafe {
+      vec.set_len(0);
+    }
+  }
+
   DrainFilter {
     vec,
     pred,
